@@ -14,11 +14,20 @@ def keyed_memo_stores(fnode, params, resolve):
     to f, are read by f (resolve(call) -> callee FunctionDef or None) and do not occur in the key.  Only tables that are also READ under the same key in this function count as memos."""
     out = []
     for st in walk_no_nested(fnode):
-        if not (isinstance(st, ast.Assign) and len(st.targets) == 1 and isinstance(st.targets[0], ast.Subscript) and isinstance(st.value, ast.Call)):
+        if not (isinstance(st, ast.Assign) and len(st.targets) == 1 and isinstance(st.targets[0], ast.Subscript)):
             continue
-        table, key, call = st.targets[0].value, st.targets[0].slice, st.value
+        call = st.value
+        if isinstance(call, ast.Name):
+            # `v = f(args); T[key] = v`: one step through a local that is bound to a call exactly once
+            binds = [a for a in walk_no_nested(fnode) if isinstance(a, ast.Assign) and any(isinstance(t, ast.Name) and t.id == call.id for t in a.targets)]
+            calls = [a.value for a in binds if isinstance(a.value, ast.Call) and not (isinstance(a.value.func, ast.Attribute) and a.value.func.attr == "get")]
+            call = calls[0] if len(calls) == 1 else None
+        if not isinstance(call, ast.Call):
+            continue
+        table, key = st.targets[0].value, st.targets[0].slice
         tsrc, ksrc = norm(table), norm(key)
         read_back = any(isinstance(x, ast.Subscript) and isinstance(x.ctx, ast.Load) and norm(x.value) == tsrc and norm(x.slice) == ksrc for x in ast.walk(fnode)) or \
+            any(isinstance(x, ast.Call) and isinstance(x.func, ast.Attribute) and x.func.attr == "get" and norm(x.func.value) == tsrc and x.args and norm(x.args[0]) == ksrc for x in ast.walk(fnode)) or \
             any(isinstance(x, ast.Compare) and len(x.ops) == 1 and isinstance(x.ops[0], (ast.In, ast.NotIn)) and norm(x.comparators[0]) == tsrc and norm(x.left) == ksrc for x in ast.walk(fnode))
         if not read_back:
             continue
